@@ -33,22 +33,22 @@ class C14(Pipeline):
     pid = "C14"
     mc = [("RelayGate_mc", "RelayGate_assign", ("quick", "thorough")),
           ("RelayGate_mc", "RelayGate_gate", ("quick", "thorough")),
-          ("RelayGate_mc", "RelayGate_gate3", ("quick", "thorough")),
+          ("RelayGate_mc", "RelayGate_gate3", ("thorough",)),
           ("RelayGate_mc", "RelayGate_dyn", ("quick", "thorough")),
           ("RelayGate_mc", "RelayGate_assign_big", ("thorough",)),
           ("RelayGate_mc", "RelayGate_gate_big", ("thorough",))]
     gens = [Gen("RelayGateGen", "RelayGateGen_assign_cover", "bfs", tiers=("quick",), timeout=300),
             Gen("RelayGateGen", "RelayGateGen_gate_cover", "bfs", tiers=("quick",), timeout=300),
-            Gen("RelayGateGen", "RelayGateGen_sim", "simulate", num=300, depth=14, tiers=("quick",), timeout=300),
+            Gen("RelayGateGen", "RelayGateGen_sim", "simulate", num=250, depth=14, tiers=("quick",), timeout=300),
             Gen("RelayGateGen", "RelayGateGen_assign_cover_big", "bfs", tiers=("thorough",), timeout=900),
             Gen("RelayGateGen", "RelayGateGen_gate_cover_big", "bfs", tiers=("thorough",), timeout=900),
-            Gen("RelayGateGen", "RelayGateGen_sim", "simulate", num=2000, depth=14, tiers=("thorough",), timeout=1200)]
+            Gen("RelayGateGen", "RelayGateGen_sim", "simulate", num=1200, depth=14, tiers=("thorough",), timeout=1200)]
     driver_pkg = "drivers/relaygate"
     driver_test = "TestDriveRelayGate"
     trace_module = "RelayGateTrace"
     trace_cfg = "RelayGateTrace"
     quick_cap = 6000
-    thorough_cap = 30000
+    thorough_cap = 20000
     min_histories = 200
     assumptions = [
         "six validators of equal power; target chain eth-b is supported but not active (a chain being onboarded), eth-a is active: "
@@ -69,8 +69,41 @@ class C14(Pipeline):
         self._fee = None
 
     # ---- trace ---------------------------------------------------------------------------------
+    chunk_events = 15000      # events per TLC trace validation run (bounded memory; chunks run in parallel)
+
+    def _validate_chunks(self, events):
+        events = self.with_resets(events)
+        chunks, cur, last = [], [], None
+        for e in events:
+            if e["h"] != last and len(cur) >= self.chunk_events:
+                chunks.append(cur)
+                cur = []
+            last = e["h"]
+            cur.append(e)
+        if cur:
+            chunks.append(cur)
+        if len(chunks) <= 1:
+            return vk.tlc_validate(self.trace_module, events, cfg=self.trace_cfg)
+        from concurrent.futures import ThreadPoolExecutor
+        with ThreadPoolExecutor(max_workers=4) as ex:
+            parts = list(ex.map(lambda c: vk.tlc_validate(self.trace_module, c, cfg=self.trace_cfg), chunks))
+        v = vk.Validation()
+        v.accepted, v.details, off = True, [], 0
+        for c, p in zip(chunks, parts):
+            v.monfail += [(n, i + off, e) for n, i, e in p.monfail]
+            v.conffail += [(n, i + off, e) for n, i, e in p.conffail]
+            v.states += p.states
+            v.wall += p.wall
+            v.details += p.details
+            if not p.accepted:
+                v.accepted = False
+                v.reject_tail = getattr(p, "reject_tail", "")
+            off += len(c)
+        v.details = v.details[:5]
+        return v
+
     def validate(self, events):
-        v = super().validate(events)
+        v = self._validate_chunks(events)
         setup = [m for m in v.monfail if m[0].startswith("Setup.")]
         if setup:
             raise vk.Broken("harness set-up monitor failed (not a verdict): %s at trace line %d" % (setup[0][0], setup[0][1]))
@@ -89,7 +122,17 @@ class C14(Pipeline):
         offered = sum(1 for e in events if e["act"] == "Query" and any(len(x) for x in e["offered"]))
         withheld = sum(1 for e in events if e["act"] == "Query" and len(e["obs"]["queue"]) > sum(len(x) for x in e["offered"]))
         elected = sum(1 for e in events if e["act"] == "EndBlock" and any(m["fees"][0] > 0 for m in e["obs"]["queue"]))
-        need = {"Assign:assigned": 50, "Assign:noassign": 50, "Estimate:ok": 50, "Estimate:fail": 5, "Deliver:ok": 20, "Query:query": 100}
+        # requests arriving when no validator qualifies (counted on the recorded tables, whatever the code answered)
+        prev, hopeless = None, 0
+        for e in events:
+            if e["act"] == "Assign" and prev is not None and prev["h"] == e["h"]:
+                o = prev["obs"]
+                if not any(o["snap"][i]["member"] and o["snap"][i]["acct"] and o["fee"][i] and o["perf"][i] for i in range(len(o["fee"]))):
+                    hopeless += 1
+            prev = e
+        if hopeless < 50:
+            raise vk.Broken("vacuous trace: only %d requests without any qualifying validator" % hopeless)
+        need = {"Assign:assigned": 50, "Estimate:ok": 50, "Estimate:fail": 5, "Deliver:ok": 20, "Query:query": 100}
         for k, n in need.items():
             if c.get(k, 0) < n:
                 raise vk.Broken("vacuous trace: only %d events %s" % (c.get(k, 0), k))
@@ -237,14 +280,15 @@ class C14(Pipeline):
         finally:
             shutil.rmtree(d, ignore_errors=True)
 
-    def find_bad(self, recs):
-        """bisect to the samples the operators do not reproduce"""
-        if self.apalache(recs):
+    def find_bad(self, recs, known_bad=False):
+        """one sample the operators do not reproduce (bisection: about log2(n) Apalache runs), [] if all agree"""
+        if not known_bad and self.apalache(recs):
             return []
         if len(recs) == 1:
             return recs
         mid = len(recs) // 2
-        return self.find_bad(recs[:mid]) + self.find_bad(recs[mid:])
+        left = self.find_bad(recs[:mid])
+        return left if left else self.find_bad(recs[mid:], known_bad=True)
 
     def fee_check(self, tier):
         t0 = time.time()
@@ -259,7 +303,8 @@ class C14(Pipeline):
         bad = []
         batch = 200
         for i in range(0, len(good), batch):
-            bad += self.find_bad(good[i:i + batch])
+            if not bad:                       # one counterexample is enough for the verdict
+                bad += self.find_bad(good[i:i + batch])
         # self-test of the arithmetic binding: a floored relayer fee must be noticed
         probe_rec = dict(next(r for r in good if int(r["m18"]) * int(r["g"]) % S18 != 0))
         probe_rec["r"] = str(int(probe_rec["r"]) - 1)
